@@ -246,10 +246,17 @@ theorem node_agree (c : Cfg) (l : BLeaf) (s : Bytes) (hs : leafText c l = some s
     rw [wrapRes_succ']
     simpa [trTy, TextDoc.valueOfN] using this
   | ign => show _ = _; rfl
-  | bool | i64 | u64 | i32 | u32 | str | any =>
+  | bool | i64 | u64 | i32 | u32 | str =>
     simp only [stripOpt] at hb
     have := scalar_agree _ hb s
     simpa [nodeVia, stripOpt, wrapRes_zero, valCoreG, textSem, textLeaf, hs, trTy, TextDoc.valueOfN] using this
+  | any =>
+    simp only [stripOpt] at hb
+    have := scalar_agree _ hb s
+    have h2 : TextDoc.anyVal TextDe.Enc.w1252 (TextDoc.Node.leaf { bytes := s, quoted := q })
+        = TextDoc.valueOfScalar TextDe.Enc.w1252 TextDe.Ty.any s := by
+      simp [TextDoc.anyVal, TextDoc.valueOfScalar]
+    simpa [nodeVia, stripOpt, wrapRes_zero, valCoreG, textSem, textLeaf, hs, trTy, TextDoc.valueOfN, h2] using this
   | _ => simp [stripOpt, bridgeCore] at hb
 termination_by t => tySize t
 decreasing_by all_goals (subst_vars; simp [tySize])
